@@ -256,7 +256,9 @@ func (r *e2e) writeRecord() {
 	rec.Probes = k.Probes
 	rec.Faults = k.Faults
 	rec.Parked = k.ParkedSummary()
-	rec.Requests = len(r.net.Snapshot())
+	if r.net != nil {
+		rec.Requests = len(r.net.Snapshot())
+	}
 	r.summary["point_counts"] = k.PointCount
 	r.summary["warc_writes"] = r.warcWrites
 	rec.Summary = r.summary
@@ -483,6 +485,13 @@ func RunE2E(t *testing.T, in *RunInput) {
 			k.logFile = f
 		}
 		if err := applyConfig(sc, in.JobDir); err != nil {
+			if sc.Extra != nil && sc.Extra["config_may_refuse"] != "" {
+				// the crawl refuses to start with this configuration: nothing is fetched, which is within every property
+				k.Probe("config-refused")
+				rec.EndReason = "config-refused"
+				r.writeRecord()
+				os.Exit(0)
+			}
 			t.Fatalf("config: %v", err)
 		}
 		r.jobPath = config.Get().JobPath
